@@ -1348,11 +1348,18 @@ class ProcessPoolExecutor(Executor):
                 _threads_wakeups.pop(executor_manager_thread, None)
 
         # To reduce the risk of opening too many files, remove references to
-        # objects that use file descriptors.
-        self._executor_manager_thread = None
-        self._executor_manager_thread_wakeup = None
-        self._call_queue = None
-        self._result_queue = None
-        self._processes_management_lock = None
+        # objects that use file descriptors. This is only safe once the
+        # executor manager thread is done: with wait=False it can still need
+        # them to re-spawn workers for the pending tasks.
+        if (
+            executor_manager_thread is None
+            or wait
+            or not executor_manager_thread.is_alive()
+        ):
+            self._executor_manager_thread = None
+            self._executor_manager_thread_wakeup = None
+            self._call_queue = None
+            self._result_queue = None
+            self._processes_management_lock = None
 
     shutdown.__doc__ = Executor.shutdown.__doc__
